@@ -1269,7 +1269,17 @@ def P25(m, R):
             ps3 = paths(cfg3, first3, lambda nd: nd is head3, max_visits=1, limit=2000)
         except PathExplosion:
             ps3 = None
-        if ps3 is None or norm(lp3.iter) != 'self._str.split(ansi_sep)' or res is None:
+        glued = None
+        it3 = lp3.iter
+        if call_name(it3) == 'split' and isinstance(it3.func, ast.Attribute) and call_name(it3.func.value) == 'replace' and \
+                norm(it3.func.value.func.value) == 'self._str' and len(it3.func.value.args) == 2 and [norm(a) for a in it3.args] == ['ansi_sep']:
+            a0_, a1_ = (const_val(x, None) for x in it3.func.value.args)
+            if isinstance(a0_, str) and a0_ and a0_.isspace() and a1_ == '':
+                glued = a0_
+        if glued is not None:
+            ok, why = False, ('blanks are removed from the whole text before it is split (%s): the digits on both sides of an interior blank are glued together, '
+                              '"3 1" is read as the code 31 and the setting is reported parsable; only blanks around a whole field are insignificant' % short(it3))
+        elif ps3 is None or norm(lp3.iter) != 'self._str.split(ansi_sep)' or res is None:
             ok = None
         else:
             ok = True
